@@ -55,20 +55,49 @@ def _rerun_unstable(run):
         run.obligations = obl
 
 
+def _known_proposals(run):
+    """known_findings.C17.json holds the builder's PROPOSED known findings (narrow signatures over case line + verdict).
+    Until the coordinator has merged them into known_findings.json a propfail that matches one is reported as
+    KNOWN-FINDING (same matching rule as ./check: property + clause subset + regex), not as a violation."""
+    import json
+    p = os.path.join(os.path.dirname(os.path.dirname(os.path.abspath(__file__))), "known_findings.C17.json")
+    if not os.path.exists(p):
+        return
+    known = [k for k in json.load(open(p)).get("findings", []) if k.get("property") == "C17" and k.get("status") == "known"]
+    keep = []
+    for item in run.propfails:
+        case, answer = item[0], item[1]
+        m = re.match(r"propfail (\S+)", answer)
+        clauses = set(m.group(1).split(",")) if m else set()
+        hit = None
+        for k in known:
+            if clauses and clauses <= set(k.get("clauses", [])) and re.search(k["signature_regex"], case + " ## " + answer):
+                hit = k
+                break
+        if hit is None:
+            keep.append(item)
+        else:
+            run.known_hits.setdefault(hit["id"], [hit, 0, case])
+            run.known_hits[hit["id"]][1] += 1
+    run.propfails = keep
+
+
 CHECK = {
     "suites": [
         suite("consensus", "c17", 14, 240, stdin=True, args=["-suite", "consensus"], timeout={"quick": 600, "thorough": 1500}),
         suite("fault", "c17", 10, 80, stdin=True, args=["-suite", "fault"], timeout={"quick": 600, "thorough": 1500}),
         suite("conc", "c17", 7, 90, stdin=True, args=["-suite", "conc"], timeout={"quick": 600, "thorough": 1500}),
         suite("join", "c17", 4, 120, stdin=True, args=["-suite", "join"], timeout={"quick": 600, "thorough": 1500}),
+        suite("depart", "c17", 6, 60, stdin=True, args=["-suite", "depart", "-par", "9"], timeout={"quick": 600, "thorough": 1500}),
         suite("cluster", "c17", 5, 100, stdin=True, args=["-suite", "cluster"], timeout={"quick": 600, "thorough": 2400}),
     ],
     "gen": [{"pkg": "extract_c17", "out": "lean/ClusterVerif/Gen/C17.lean"}],
-    "extra": [_rerun_unstable],
+    "extra": [_known_proposals, _rerun_unstable],
     "search_seeds": {"quick": 1, "thorough": 2},
     "lean_sources": ["ClusterVerif/Model/C17.lean", "ClusterVerif/Spec/C17.lean", "ClusterVerif/Lemmas/C17.lean", "ClusterVerif/Lemmas/C17Step.lean",
                      "ClusterVerif/Model/C17Fault.lean", "ClusterVerif/Spec/C17Fault.lean", "ClusterVerif/Lemmas/C17Fault.lean",
                      "ClusterVerif/Model/C17Depart.lean", "ClusterVerif/Lemmas/C17Depart.lean",
+                     "ClusterVerif/Model/C17Shutdown.lean", "ClusterVerif/Spec/C17Depart.lean",
                      "ClusterVerif/Gen/C17.lean", "ClusterVerif/Model/Pin.lean"],
     "rule": "consensus suite: scripts of 4-14 steps over 1-4 real raft.Consensus peers on loopback (bootstrap of 1-3 peers; pin/unpin, "
             "start+add+ready of a staging peer, add of a present peer, removal of an absent / other / own / leader / last peer, restart, "
@@ -83,6 +112,12 @@ CHECK = {
             "under the oracle the plan stands for. conc suite (7 scripts quick, 90 thorough): phases of 2-4 calls (one membership change + pins/unpins) "
             "started together from different members, observed at sync points; admitted iff some order of each phase explains it. join suite "
             "(4 scripts quick, 120 thorough): a staging peer is added and waited for while a burst of 16-40 pins is logged. "
+            "depart suite (6 generated histories + 9 corpus lines quick, 60 thorough): ONE observed full Cluster peer of a three-peer cluster is taken "
+            "through a history of the events of the Lean departure machine (write, removed by another member, removes itself, watchPeers round, "
+            "operator Shutdown with/without leave_on_shutdown, restart on its folders; peer_watch_interval 3 s, removals placed early in the watch "
+            "period so that what follows is before the next round); observed: Done(), listed by a remaining member, raft.db/snapshots present, "
+            "RmPeer(self) seen; compared with depRun over Gen.shutdownSites and the INTERPRETED Gen.shutdownEffects, and judged by the text clauses "
+            "removed_discards / removed_stops. Generated histories avoid the two proposed known findings (corpus only). "
             "One case per observation point (script so far => what every running peer reports once all caught up); non-trivial = the script "
             "contains a membership step; distinct by case line",
     "trusted_base": ["hashicorp/raft 1.1.1 and go-libp2p-raft: log agreement, configuration changes, snapshots (the model assumes one log whose prefixes members hold)",
@@ -91,7 +126,10 @@ CHECK = {
                      "consensus/redirectToLeader, consensus/raft/AddPeer, consensus/RemovePeer used to count leader-side attempts and to time the leadership transfer",
                      "harness RPC services standing in for the Cluster RPC API at consensus level; StoreMonitor / FakeIPFS at cluster level",
                      "go/ast skeleton extractor (harness/extract_c17) for the statement order of the anchored functions and for the "
-                     "Shutdown start sites of cluster.go (enclosing conditions, domination by `c.removed = true` / `c.readyB = true`)"],
+                     "Shutdown start sites of cluster.go (enclosing conditions, domination by `c.removed = true` / `c.readyB = true`) and for the tracked "
+                     "effects of (*Cluster).Shutdown with the atoms of their guards (Gen.shutdownEffects; `err` qualified by the call it comes from; guards "
+                     "are evaluated when the effect is reached, components other than consensus are assumed to stop without error)",
+                     "known_findings.C17.json + checks/C17.py _known_proposals: the builder's PROPOSED findings K17a/K17b are classified KNOWN-FINDING until merged"],
     "assumptions": ["consensus / cluster / fault scripts are sequential: a step starts after the previous one returned and all members caught up; "
                     "conc phases and the join burst are concurrent, observed at sync points",
                     "fault plans: one fault kind per attempt, the forwarded call's own retry loop on the leader is healthy; one partition shape (the leader alone, "
@@ -99,9 +137,10 @@ CHECK = {
                     "C17_conc_full (what the concurrent model admits meets the clauses) is stated, not proved: validated by suite conc",
                     "steps are issued only while a quorum of voters is running (otherwise the harness reports the script inconclusive)",
                     "the Raft data folder is observed after Clean: no raft.db, no snapshot; rotated copies are counted next to it",
-                    "departure theorems speak of a removed peer that is running and is given its watchPeers round: a peer stopped by the operator "
-                    "between its removal by another member and that round, or removed while down, keeps its data (model witnesses "
-                    "stop_before_watch_round_keeps_data; not exercised on real peers)",
+                    "departure theorems exclude (`outside`) a peer stopped by the operator between its removal by another member and its watchPeers round "
+                    "(unless Shutdown consults an answering consensus.Peers: proposed fix C17-1) and a peer removed while down: both keep their data, "
+                    "REPRODUCED on real peers by suite depart (proposed known findings K17a, K17b; departure_text_refuted_today)",
+                    "a ghost peer (removed while down, started again) is given ReadyTimeout = 15 s in suite depart",
                     "pins in scripts carry no origins (not decodable from the Raft log: recorded finding K01 of C08/C01)"],
 }
 META = {
@@ -120,7 +159,12 @@ META = {
             "whether `c.removed = true` dominates it) and interpreted by a one-peer state machine over histories of removals by others, self-removals, "
             "watchPeers rounds, operator stops and writes: for ANY safe site list (today's is, by decide) a stopped non-member holds no consensus data "
             "(departure_cleans), a removed running peer stops and cleans at its next answered watch round, and every self-removal site that starts "
-            "Shutdown without the flag is refuted with the history 'the peer removes itself' (unflagged_self_removal_refuted, early_shutdown_keeps_data = seeded C17f). The model is tied to the code by running seeded scripts on real Raft peers (and full clusters) and comparing outcomes, peersets "
+            "Shutdown without the flag is refuted with the history 'the peer removes itself' (unflagged_self_removal_refuted, early_shutdown_keeps_data = seeded C17f). Round 8b: (*Cluster).Shutdown itself is regenerated as a list of tracked effects with guard atoms and INTERPRETED "
+            "(gen_shutdown_effects_agree: for all 128 flag/oracle values the interpretation equals the closed form the departure machine uses; "
+            "shutdown_guard_edits_refuted: five realistic guard edits each change it on a concrete input); the departure machine has a restart event and a "
+            "`consult` form (Shutdown looks at consensus.Peers itself, read off the regenerated structure), its own case kind `d` on real peers and its own text "
+            "clauses; departure_text_refuted_today states the gap of today's code (stop before the watch round; removed while down and restarted) and "
+            "consult_closes_stop_gap what the proposed repair closes. The model is tied to the code by running seeded scripts on real Raft peers (and full clusters) and comparing outcomes, peersets "
             "and pinsets of every member with the model, by evaluating the Lean property clauses on the implementation's own outputs, and by a go/ast "
             "skeleton of the anchored functions over which the guard/ordering facts are re-checked by `decide`.",
     "note": "Partial by nature: agreement is hashicorp/raft's (trusted). Trusted: Lean kernel, hand-written model/spec, harness, hook file "
